@@ -5,12 +5,53 @@
 -/
 import RoModel.DriverCore
 import RoModel.Drivers.Op
+import RoModel.Drivers.Chain
+import RoModel.Drivers.Cancel
+import RoModel.Drivers.Overlap
+import RoModel.Drivers.Timed
+import RoModel.Drivers.Plugin
+import RoModel.Drivers.Resub
+import RoModel.Drivers.Subject
+import RoModel.Drivers.SubjLin
+import RoModel.Drivers.Rate
+import RoModel.Drivers.Chan
+import RoModel.Drivers.Multi
+import RoModel.Drivers.Create
+import RoModel.Drivers.More
+import RoModel.Drivers.Fault
+import RoModel.Drivers.Prom
+import RoModel.Drivers.Cut
 import RoModel.Drivers.Kernel
 namespace Ro.Driver
 
 def handlers : List (String × (Case → String)) := [
   ("op", Drivers.Op.run),
-  ("kernel", Drivers.Kernel.run)
+  ("kernel", Drivers.Kernel.run),
+  ("chain", Drivers.Chain.runChain),
+  ("reuse", Drivers.Chain.runReuse),
+  ("reusemulti", Drivers.Chain.runReuseMulti),
+  ("cancel", Drivers.Cancel.run),
+  ("overlap", Drivers.Overlap.run),
+  ("leak", Drivers.Cancel.runLeak),
+  ("timed", Drivers.Timed.run),
+  ("plugin", Drivers.Plugin.run),
+  ("resub", Drivers.Resub.run),
+  ("subject", Drivers.Subject.run),
+  ("subjlin", Drivers.SubjLin.run),
+  ("rate", Drivers.Rate.run),
+  ("chan", Drivers.Chan.run),
+  ("chanv", Drivers.Chan.runV),
+  ("multi", Drivers.Multi.run),
+  ("multimicro", Drivers.Multi.runMicro),
+  ("multipark", Drivers.Multi.runMicro),
+  ("create", Drivers.Create.run),
+  ("tap", Drivers.More.runTap),
+  ("pipe", Drivers.More.runPipe),
+  ("fault", Drivers.Fault.run),
+  ("prom", Drivers.Prom.run),
+  ("cutin", Drivers.Cut.runCutIn),
+  ("collect", Drivers.Cut.runCollect),
+  ("teardown", Drivers.Cut.runTeardown)
 ]
 
 def runCase (c : Case) : String :=
